@@ -53,3 +53,94 @@ Proof. vm_compute. reflexivity. Qed.
 Example py_reverse_bubble_matches_mirror :
   py_reverse_bubble_list opos sample = bubble (mode_lt opos) sample.
 Proof. vm_compute. reflexivity. Qed.
+
+(* ---- and they sort (SortThm.v): the regenerated pass structure is the one of a bubble sort *)
+From Coq Require Import Sorted Lia.
+From FQE Require Import SortThm.
+
+Lemma exchange_total r k mode x y :
+  exchange_when r k mode x y = false \/ exchange_when r k mode y x = false.
+Proof.
+  unfold exchange_when, rel_of. destruct r.
+  - destruct (Nat.ltb_spec (key_of k mode y) (key_of k mode x)); [right|left; reflexivity].
+    apply Nat.ltb_ge. lia.
+  - destruct (Nat.ltb_spec (key_of k mode x) (key_of k mode y)); [right|left; reflexivity].
+    apply Nat.ltb_ge. lia.
+Qed.
+
+Lemma exchange_trans r k mode x y z :
+  exchange_when r k mode x y = false -> exchange_when r k mode y z = false -> exchange_when r k mode x z = false.
+Proof.
+  unfold exchange_when, rel_of. destruct r; rewrite !Nat.ltb_ge; lia.
+Qed.
+
+Lemma sort_run_is_bubble npasses pass r k mode l :
+  (forall n, npasses n = n) -> (forall n i, pass n i = pass_of n i) ->
+  sort_run npasses pass r k mode l
+  = run_passes (exchange_when r k mode) (map (pass_of (length l)) (seq 0 (length l))) l.
+Proof.
+  intros Hn Hp. unfold sort_run. rewrite Hn. f_equal. apply map_ext. intros i. apply Hp.
+Qed.
+
+Lemma py_pass_is_bubble_pass n i : seq 0 (n - i - 1 - 0) = pass_of n i.
+Proof. unfold pass_of. rewrite Nat.sub_0_r. reflexivity. Qed.
+
+Definition ordered (r : sort_rel) (k : sort_key) (mode : lop -> nat) (x y : lop) : Prop :=
+  exchange_when r k mode x y = false.
+
+Theorem py_paritysort_list_sorts mode l :
+  StronglySorted (ordered py_paritysort_list_rel py_paritysort_list_key mode) (snd (py_paritysort_list mode l)).
+Proof.
+  unfold py_paritysort_list.
+  rewrite (sort_run_is_bubble _ _ _ _ mode l (fun n => eq_refl) py_pass_is_bubble_pass).
+  apply (bubble_program_sorts (exchange_when py_paritysort_list_rel py_paritysort_list_key mode)).
+  - intros x y. apply exchange_total.
+  - intros x y z. apply exchange_trans.
+Qed.
+
+Theorem py_reverse_bubble_list_sorts mode l :
+  StronglySorted (ordered py_reverse_bubble_list_rel py_reverse_bubble_list_key mode) (snd (py_reverse_bubble_list mode l)).
+Proof.
+  unfold py_reverse_bubble_list.
+  rewrite (sort_run_is_bubble _ _ _ _ mode l (fun n => eq_refl) py_pass_is_bubble_pass).
+  apply (bubble_program_sorts (exchange_when py_reverse_bubble_list_rel py_reverse_bubble_list_key mode)).
+  - intros x y. apply exchange_total.
+  - intros x y z. apply exchange_trans.
+Qed.
+
+Theorem py_bubblesort_sorts mode l :
+  StronglySorted (ordered py_bubblesort_rel py_bubblesort_key mode) (snd (py_bubblesort mode l)).
+Proof.
+  unfold py_bubblesort.
+  rewrite (sort_run_is_bubble _ _ _ _ mode l (fun n => eq_refl) py_pass_is_bubble_pass).
+  apply (bubble_program_sorts (exchange_when py_bubblesort_rel py_bubblesort_key mode)).
+  - intros x y. apply exchange_total.
+  - intros x y z. apply exchange_trans.
+Qed.
+
+(* what "ordered" means for the three sorts: alpha (even) before beta (odd); descending index; ascending index *)
+Lemma ordered_paritysort mode x y :
+  ordered py_paritysort_list_rel py_paritysort_list_key mode x y <-> Nat.modulo (mode x) 2 <= Nat.modulo (mode y) 2.
+Proof. unfold ordered, exchange_when, py_paritysort_list_rel, py_paritysort_list_key, rel_of, key_of. rewrite Nat.ltb_ge. reflexivity. Qed.
+Lemma ordered_reverse_bubble mode x y :
+  ordered py_reverse_bubble_list_rel py_reverse_bubble_list_key mode x y <-> mode y <= mode x.
+Proof. unfold ordered, exchange_when, py_reverse_bubble_list_rel, py_reverse_bubble_list_key, rel_of, key_of. rewrite Nat.ltb_ge. reflexivity. Qed.
+Lemma ordered_bubblesort mode x y :
+  ordered py_bubblesort_rel py_bubblesort_key mode x y <-> mode x <= mode y.
+Proof. unfold ordered, exchange_when, py_bubblesort_rel, py_bubblesort_key, rel_of, key_of. rewrite Nat.ltb_ge. reflexivity. Qed.
+
+Lemma StronglySorted_impl {A} (P Q : A -> A -> Prop) l : (forall x y, P x y -> Q x y) -> StronglySorted P l -> StronglySorted Q l.
+Proof.
+  intros H S. induction S as [|a l S IH F]; constructor; [exact IH|].
+  rewrite Forall_forall in *. intros y Hy. apply H. apply F. exact Hy.
+Qed.
+
+Theorem py_paritysort_list_sorts_key mode l :
+  StronglySorted (fun x y => Nat.modulo (mode x) 2 <= Nat.modulo (mode y) 2) (snd (py_paritysort_list mode l)).
+Proof. eapply StronglySorted_impl; [|apply py_paritysort_list_sorts]. intros x y. apply ordered_paritysort. Qed.
+Theorem py_reverse_bubble_list_sorts_key mode l :
+  StronglySorted (fun x y => mode y <= mode x) (snd (py_reverse_bubble_list mode l)).
+Proof. eapply StronglySorted_impl; [|apply py_reverse_bubble_list_sorts]. intros x y. apply ordered_reverse_bubble. Qed.
+Theorem py_bubblesort_sorts_key mode l :
+  StronglySorted (fun x y => mode x <= mode y) (snd (py_bubblesort mode l)).
+Proof. eapply StronglySorted_impl; [|apply py_bubblesort_sorts]. intros x y. apply ordered_bubblesort. Qed.
